@@ -58,6 +58,7 @@ def dstepLine (s : DState) (toks : List String) : DState × String :=
       (s, if k.length == w.length && w.length == sn.length && Conc.serialOk i (Conc.zipG k w sn) f then "accept"
           else "reject no-serial-order-explains-the-observations")
     | _, _, _, _, _ => (s, "bad-op")
+  | ["conc", "upgrade", init, final, kinds, ws, ss, qget, qhas]
   | ["conc", "rgate", init, final, kinds, ws, ss, qget, qhas] =>
     match init.toNat?, final.toNat?, parseCsv kinds, parseCsv ws, parseCsv ss, qget.toNat?, qhas.toNat? with
     | some i, some f, some k, some w, some sn, some qg, some qh =>
